@@ -1,6 +1,6 @@
 /-
-Color488Code, square sizes `L ≥ 1`: assembly of `Lattice.WF` and `Lattice.CommPair`, and the
-size formulas `n = 8L²`, `n_stabilizers = 2(2L+1)²`.  Core Lean only.
+Color488Code, all sizes `Lx, Ly ≥ 1`: assembly of `Lattice.WF` and `Lattice.CommPair`, and the
+size formulas `n = 8·Lx·Ly`, `n_stabilizers = 2(2Lx+1)(2Ly+1)`.  Core Lean only.
 -/
 import PanqecVerif.Proofs.LatColor488CodeD
 
@@ -10,26 +10,26 @@ set_option linter.unusedSimpArgs false
 namespace Panqec.Color488Code
 open Panqec.Lat2D Panqec.Color
 
-theorem logX_eq (L : Nat) : logX L L =
-    [(k3 L).map (fun q => (q, Pauli.X)), (k7 L).map (fun q => (q, Pauli.X)),
-     (r5 L).map (fun q => (q, Pauli.X)), (r1 L).map (fun q => (q, Pauli.X))] := by
-  show [collect (col3 L) (isQubit L L) Pauli.X, collect (col7 L) (isQubit L L) Pauli.X,
-    collect (row5 L) (isQubit L L) Pauli.X, collect (row1 L) (isQubit L L) Pauli.X] = _
-  rw [collect_eq _ _ _ (nodup_col3 L), collect_eq _ _ _ (nodup_col7 L),
-    collect_eq _ _ _ (nodup_row5 L), collect_eq _ _ _ (nodup_row1 L)]; rfl
+theorem logX_eq (Lx Ly : Nat) : logX Lx Ly =
+    [(k3 Lx Ly).map (fun q => (q, Pauli.X)), (k7 Lx Ly).map (fun q => (q, Pauli.X)),
+     (r5 Lx Ly).map (fun q => (q, Pauli.X)), (r1 Lx Ly).map (fun q => (q, Pauli.X))] := by
+  show [collect (col3 Ly) (isQubit Lx Ly) Pauli.X, collect (col7 Ly) (isQubit Lx Ly) Pauli.X,
+    collect (row5 Lx) (isQubit Lx Ly) Pauli.X, collect (row1 Lx) (isQubit Lx Ly) Pauli.X] = _
+  rw [collect_eq _ _ _ (nodup_col3 Ly), collect_eq _ _ _ (nodup_col7 Ly),
+    collect_eq _ _ _ (nodup_row5 Lx), collect_eq _ _ _ (nodup_row1 Lx)]; rfl
 
-theorem logZ_eq (L : Nat) : logZ L L =
-    [(r5 L).map (fun q => (q, Pauli.Z)), (r1 L).map (fun q => (q, Pauli.Z)),
-     (k3 L).map (fun q => (q, Pauli.Z)), (k7 L).map (fun q => (q, Pauli.Z))] := by
-  show [collect (row5 L) (isQubit L L) Pauli.Z, collect (row1 L) (isQubit L L) Pauli.Z,
-    collect (col3 L) (isQubit L L) Pauli.Z, collect (col7 L) (isQubit L L) Pauli.Z] = _
-  rw [collect_eq _ _ _ (nodup_col3 L), collect_eq _ _ _ (nodup_col7 L),
-    collect_eq _ _ _ (nodup_row5 L), collect_eq _ _ _ (nodup_row1 L)]; rfl
+theorem logZ_eq (Lx Ly : Nat) : logZ Lx Ly =
+    [(r5 Lx Ly).map (fun q => (q, Pauli.Z)), (r1 Lx Ly).map (fun q => (q, Pauli.Z)),
+     (k3 Lx Ly).map (fun q => (q, Pauli.Z)), (k7 Lx Ly).map (fun q => (q, Pauli.Z))] := by
+  show [collect (row5 Lx) (isQubit Lx Ly) Pauli.Z, collect (row1 Lx) (isQubit Lx Ly) Pauli.Z,
+    collect (col3 Ly) (isQubit Lx Ly) Pauli.Z, collect (col7 Ly) (isQubit Lx Ly) Pauli.Z] = _
+  rw [collect_eq _ _ _ (nodup_col3 Ly), collect_eq _ _ _ (nodup_col7 Ly),
+    collect_eq _ _ _ (nodup_row5 Lx), collect_eq _ _ _ (nodup_row1 Lx)]; rfl
 
 /-- every logical operator is a single letter on one of the four lines -/
-theorem log_mem {L : Nat} {a : Op} (ha : a ∈ logX L L ++ logZ L L) :
+theorem log_mem {Lx Ly : Nat} {a : Op} (ha : a ∈ logX Lx Ly ++ logZ Lx Ly) :
     ∃ (K : List Coord) (P : Pauli), a = K.map (fun q => (q, P)) ∧ P ≠ Pauli.I ∧
-      (K = k3 L ∨ K = k7 L ∨ K = r5 L ∨ K = r1 L) := by
+      (K = k3 Lx Ly ∨ K = k7 Lx Ly ∨ K = r5 Lx Ly ∨ K = r1 Lx Ly) := by
   rw [logX_eq, logZ_eq] at ha
   simp only [List.cons_append, List.nil_append, List.mem_cons, List.not_mem_nil, or_false] at ha
   rcases ha with rfl | rfl | rfl | rfl | rfl | rfl | rfl | rfl
@@ -42,101 +42,101 @@ theorem log_mem {L : Nat} {a : Op} (ha : a ∈ logX L L ++ logZ L L) :
   · exact ⟨_, Pauli.Z, rfl, by decide, Or.inl rfl⟩
   · exact ⟨_, Pauli.Z, rfl, by decide, Or.inr (Or.inl rfl)⟩
 
-theorem line_nodup {L : Nat} {K : List Coord} (h : K = k3 L ∨ K = k7 L ∨ K = r5 L ∨ K = r1 L) :
+theorem line_nodup {Lx Ly : Nat} {K : List Coord} (h : K = k3 Lx Ly ∨ K = k7 Lx Ly ∨ K = r5 Lx Ly ∨ K = r1 Lx Ly) :
     K.Nodup := by
   rcases h with rfl | rfl | rfl | rfl
-  · exact nodup_k3 L
-  · exact nodup_k7 L
-  · exact nodup_r5 L
-  · exact nodup_r1 L
+  · exact nodup_k3 Lx Ly
+  · exact nodup_k7 Lx Ly
+  · exact nodup_r5 Lx Ly
+  · exact nodup_r1 Lx Ly
 
-theorem line_qubits {L : Nat} {K : List Coord} (h : K = k3 L ∨ K = k7 L ∨ K = r5 L ∨ K = r1 L) :
-    ∀ q ∈ K, q ∈ qubits L L := by
+theorem line_qubits {Lx Ly : Nat} {K : List Coord} (h : K = k3 Lx Ly ∨ K = k7 Lx Ly ∨ K = r5 Lx Ly ∨ K = r1 Lx Ly) :
+    ∀ q ∈ K, q ∈ qubits Lx Ly := by
   rcases h with rfl | rfl | rfl | rfl <;> exact filter_qubits
 
-theorem line_face_even {L : Nat} (hL : 1 ≤ L) {K : List Coord}
-    (h : K = k3 L ∨ K = k7 L ∨ K = r5 L ∨ K = r1 L) {x y : Int} (hf : IsF L x y) :
-    interCount (supp L x y) K % 2 = 0 := by
+theorem line_face_even {Lx Ly : Nat} (hx : 1 ≤ Lx) (hy : 1 ≤ Ly) {K : List Coord}
+    (h : K = k3 Lx Ly ∨ K = k7 Lx Ly ∨ K = r5 Lx Ly ∨ K = r1 Lx Ly) {x y : Int} (hf : IsF Lx Ly x y) :
+    interCount (supp Lx Ly x y) K % 2 = 0 := by
   rcases h with rfl | rfl | rfl | rfl
-  · exact supp_line_even hL hf _ _ (mem_k3 hL) (πx_col 3)
-  · exact supp_line_even hL hf _ _ (mem_k7 hL) (πx_col 7)
-  · exact supp_line_even hL hf _ _ (mem_r5 hL) (πy_row 5)
-  · exact supp_line_even hL hf _ _ (mem_r1 hL) (πy_row 1)
+  · exact supp_line_even hx hy hf _ _ (mem_k3 hx hy) (πx_col 3)
+  · exact supp_line_even hx hy hf _ _ (mem_k7 hx hy) (πx_col 7)
+  · exact supp_line_even hx hy hf _ _ (mem_r5 hx hy) (πy_row 5)
+  · exact supp_line_even hx hy hf _ _ (mem_r1 hx hy) (πy_row 1)
 
-theorem stab_comm {L : Nat} (hL : 1 ≤ L) :
-    ∀ s ∈ (lattice L L).stabs, ∀ t ∈ (lattice L L).stabs,
-      opCommute ((lattice L L).getStab s) ((lattice L L).getStab t) = true := by
+theorem stab_comm {Lx Ly : Nat} (hx : 1 ≤ Lx) (hy : 1 ≤ Ly) :
+    ∀ s ∈ (lattice Lx Ly).stabs, ∀ t ∈ (lattice Lx Ly).stabs,
+      opCommute ((lattice Lx Ly).getStab s) ((lattice Lx Ly).getStab t) = true := by
   intro s hs t ht
   obtain ⟨ax, ay, p, rfl, ha, _⟩ := mem_stabs.mp hs
   obtain ⟨bx, by', p', rfl, hb, _⟩ := mem_stabs.mp ht
-  rw [getStab_eq hL hs, getStab_eq hL ht]
+  rw [getStab_eq hx hy hs, getStab_eq hx hy ht]
   apply opCommute_const_of
   intro _
-  exact face_face_even hL ha hb
+  exact face_face_even hx hy ha hb
 
-theorem log_comm {L : Nat} (hL : 1 ≤ L) :
-    ∀ a ∈ logX L L ++ logZ L L, ∀ s ∈ (lattice L L).stabs,
-      opCommute a ((lattice L L).getStab s) = true := by
+theorem log_comm {Lx Ly : Nat} (hx : 1 ≤ Lx) (hy : 1 ≤ Ly) :
+    ∀ a ∈ logX Lx Ly ++ logZ Lx Ly, ∀ s ∈ (lattice Lx Ly).stabs,
+      opCommute a ((lattice Lx Ly).getStab s) = true := by
   intro a ha s hs
   obtain ⟨x, y, p, rfl, h, _⟩ := mem_stabs.mp hs
   obtain ⟨K, P, rfl, _, hK⟩ := log_mem ha
-  rw [getStab_eq hL hs]
+  rw [getStab_eq hx hy hs]
   apply opCommute_const_of; intro _
-  rw [interCount_comm _ _ (line_nodup hK) (nodup_supp hL ..)]
-  exact line_face_even hL hK h
+  rw [interCount_comm _ _ (line_nodup hK) (nodup_supp hx hy ..)]
+  exact line_face_even hx hy hK h
 
-theorem pairing {L : Nat} (hL : 1 ≤ L) :
-    ∀ i j, i < (lattice L L).logX.length → j < (lattice L L).logZ.length →
-      opAntiCount ((lattice L L).logX.getD i []) ((lattice L L).logZ.getD j []) % 2
+theorem pairing {Lx Ly : Nat} (hx : 1 ≤ Lx) (hy : 1 ≤ Ly) :
+    ∀ i j, i < (lattice Lx Ly).logX.length → j < (lattice Lx Ly).logZ.length →
+      opAntiCount ((lattice Lx Ly).logX.getD i []) ((lattice Lx Ly).logZ.getD j []) % 2
         = if i = j then 1 else 0 := by
   intro i j hi hj
-  change i < (logX L L).length at hi
-  change j < (logZ L L).length at hj
-  show opAntiCount ((logX L L).getD i []) ((logZ L L).getD j []) % 2 = _
+  change i < (logX Lx Ly).length at hi
+  change j < (logZ Lx Ly).length at hj
+  show opAntiCount ((logX Lx Ly).getD i []) ((logZ Lx Ly).getD j []) % 2 = _
   rw [logX_eq] at hi ⊢
   rw [logZ_eq] at hj ⊢
   simp only [List.length_cons, List.length_nil] at hi hj
   have hXZ : Pauli.anti Pauli.X Pauli.Z = true := by decide
-  have e3 := length_k3 hL; have e7 := length_k7 hL; have e5 := length_r5 hL; have e1 := length_r1 hL
+  have e3 := length_k3 hx hy; have e7 := length_k7 hx hy; have e5 := length_r5 hx hy; have e1 := length_r1 hx hy
   obtain rfl | rfl | rfl | rfl : i = 0 ∨ i = 1 ∨ i = 2 ∨ i = 3 := by omega
   · obtain rfl | rfl | rfl | rfl : j = 0 ∨ j = 1 ∨ j = 2 ∨ j = 3 := by omega
     · simp only [List.getD_cons_zero, List.getD_cons_succ, opAntiCount_const, hXZ, if_true]
-      rw [k3_r5 hL]
+      rw [k3_r5 hx hy]
     · simp only [List.getD_cons_zero, List.getD_cons_succ, opAntiCount_const, hXZ, if_true]
-      rw [k3_r1 hL]; rfl
+      rw [k3_r1 hx hy]; rfl
     · simp only [List.getD_cons_zero, List.getD_cons_succ, opAntiCount_const, hXZ, if_true]
       rw [interCount_self, e3]; simp
     · simp only [List.getD_cons_zero, List.getD_cons_succ, opAntiCount_const, hXZ, if_true]
-      rw [k3_k7 hL]; rfl
+      rw [k3_k7 hx hy]; rfl
   · obtain rfl | rfl | rfl | rfl : j = 0 ∨ j = 1 ∨ j = 2 ∨ j = 3 := by omega
     · simp only [List.getD_cons_zero, List.getD_cons_succ, opAntiCount_const, hXZ, if_true]
-      rw [k7_r5 hL]; rfl
+      rw [k7_r5 hx hy]; rfl
     · simp only [List.getD_cons_zero, List.getD_cons_succ, opAntiCount_const, hXZ, if_true]
-      rw [k7_r1 hL]
+      rw [k7_r1 hx hy]
     · simp only [List.getD_cons_zero, List.getD_cons_succ, opAntiCount_const, hXZ, if_true]
-      rw [k7_k3 hL]; rfl
+      rw [k7_k3 hx hy]; rfl
     · simp only [List.getD_cons_zero, List.getD_cons_succ, opAntiCount_const, hXZ, if_true]
       rw [interCount_self, e7]; simp
   · obtain rfl | rfl | rfl | rfl : j = 0 ∨ j = 1 ∨ j = 2 ∨ j = 3 := by omega
     · simp only [List.getD_cons_zero, List.getD_cons_succ, opAntiCount_const, hXZ, if_true]
       rw [interCount_self, e5]; simp
     · simp only [List.getD_cons_zero, List.getD_cons_succ, opAntiCount_const, hXZ, if_true]
-      rw [r5_r1 hL]; rfl
+      rw [r5_r1 hx hy]; rfl
     · simp only [List.getD_cons_zero, List.getD_cons_succ, opAntiCount_const, hXZ, if_true]
-      rw [r5_k3 hL]
+      rw [r5_k3 hx hy]
     · simp only [List.getD_cons_zero, List.getD_cons_succ, opAntiCount_const, hXZ, if_true]
-      rw [r5_k7 hL]; rfl
+      rw [r5_k7 hx hy]; rfl
   · obtain rfl | rfl | rfl | rfl : j = 0 ∨ j = 1 ∨ j = 2 ∨ j = 3 := by omega
     · simp only [List.getD_cons_zero, List.getD_cons_succ, opAntiCount_const, hXZ, if_true]
-      rw [r1_r5 hL]; rfl
+      rw [r1_r5 hx hy]; rfl
     · simp only [List.getD_cons_zero, List.getD_cons_succ, opAntiCount_const, hXZ, if_true]
       rw [interCount_self, e1]; simp
     · simp only [List.getD_cons_zero, List.getD_cons_succ, opAntiCount_const, hXZ, if_true]
-      rw [r1_k3 hL]; rfl
+      rw [r1_k3 hx hy]; rfl
     · simp only [List.getD_cons_zero, List.getD_cons_succ, opAntiCount_const, hXZ, if_true]
-      rw [r1_k7 hL]
+      rw [r1_k7 hx hy]
 
-theorem same_letter_comm {L : Nat} (P : Pauli) (l : List Op)
+theorem same_letter_comm {Lx Ly : Nat} (P : Pauli) (l : List Op)
     (hl : ∀ a ∈ l, ∃ K : List Coord, a = K.map (fun q => (q, P))) :
     ∀ a ∈ l, ∀ b ∈ l, opCommute a b = true := by
   intro a ha b hb
@@ -144,49 +144,49 @@ theorem same_letter_comm {L : Nat} (P : Pauli) (l : List Op)
   obtain ⟨K', rfl⟩ := hl b hb
   exact opCommute_same _ _ _
 
-theorem commPair_all {L : Nat} (hL : 1 ≤ L) : (lattice L L).CommPair where
-  stab_comm := stab_comm hL
-  logX_comm := fun a ha s hs => log_comm hL a (List.mem_append_left _ ha) s hs
-  logZ_comm := fun a ha s hs => log_comm hL a (List.mem_append_right _ ha) s hs
+theorem commPair_all {Lx Ly : Nat} (hx : 1 ≤ Lx) (hy : 1 ≤ Ly) : (lattice Lx Ly).CommPair where
+  stab_comm := stab_comm hx hy
+  logX_comm := fun a ha s hs => log_comm hx hy a (List.mem_append_left _ ha) s hs
+  logZ_comm := fun a ha s hs => log_comm hx hy a (List.mem_append_right _ ha) s hs
   same_k := rfl
-  pairing := pairing hL
+  pairing := pairing hx hy
   logXX := by
-    apply same_letter_comm (L := L) Pauli.X
+    apply same_letter_comm (Lx := Lx) (Ly := Ly) Pauli.X
     intro a ha
-    change a ∈ logX L L at ha
+    change a ∈ logX Lx Ly at ha
     rw [logX_eq] at ha
     simp only [List.mem_cons, List.not_mem_nil, or_false] at ha
     rcases ha with rfl | rfl | rfl | rfl <;> exact ⟨_, rfl⟩
   logZZ := by
-    apply same_letter_comm (L := L) Pauli.Z
+    apply same_letter_comm (Lx := Lx) (Ly := Ly) Pauli.Z
     intro a ha
-    change a ∈ logZ L L at ha
+    change a ∈ logZ Lx Ly at ha
     rw [logZ_eq] at ha
     simp only [List.mem_cons, List.not_mem_nil, or_false] at ha
     rcases ha with rfl | rfl | rfl | rfl <;> exact ⟨_, rfl⟩
 
-theorem wf_all {L : Nat} (hL : 1 ≤ L) : (lattice L L).WF where
-  qubits_nodup := nodup_qubits L
-  stabs_nodup := nodup_stabs L
-  disjoint := qubits_stabs_disjoint hL
+theorem wf_all {Lx Ly : Nat} (hx : 1 ≤ Lx) (hy : 1 ≤ Ly) : (lattice Lx Ly).WF where
+  qubits_nodup := nodup_qubits Lx Ly
+  stabs_nodup := nodup_stabs Lx Ly
+  disjoint := qubits_stabs_disjoint hx hy
   stab_keys := by
     intro s hs
     obtain ⟨x, y, p, rfl, h, _⟩ := mem_stabs.mp hs
-    rw [getStab_eq hL hs, map_fst_const]
-    exact nodup_supp hL ..
+    rw [getStab_eq hx hy hs, map_fst_const]
+    exact nodup_supp hx hy ..
   stab_supported := by
     intro s hs e he
     obtain ⟨x, y, p, rfl, h, _⟩ := mem_stabs.mp hs
-    rw [getStab_eq hL hs] at he
+    rw [getStab_eq hx hy hs] at he
     simp only [List.mem_map] at he
     obtain ⟨q, hq, rfl⟩ := he
-    exact ⟨(mem_qubits_faces hL).mpr ⟨x, y, h, hq⟩, letter_ne_I p⟩
+    exact ⟨(mem_qubits_faces hx hy).mpr ⟨x, y, h, hq⟩, letter_ne_I p⟩
   stab_nonempty := by
     intro s hs
     obtain ⟨x, y, p, rfl, h, _⟩ := mem_stabs.mp hs
-    rw [getStab_eq hL hs]
+    rw [getStab_eq hx hy hs]
     intro hnil
-    exact supp_nonempty L x y (List.map_eq_nil_iff.mp hnil)
+    exact supp_nonempty Lx Ly x y (List.map_eq_nil_iff.mp hnil)
   log_keys := by
     intro a ha
     obtain ⟨K, P, rfl, _, hK⟩ := log_mem ha
@@ -205,10 +205,10 @@ theorem length_range4 (L : Nat) : (pyRangeStep 0 (8 * (L : Int) + 4) 4).length =
   simp only [List.length_map, List.length_range']
   omega
 
-/-- `n_stabilizers = 2(2L+1)²` (the seam rows are listed twice) -/
-theorem length_stabs (L : Nat) : (stabs L L).length = 2 * ((2 * L + 1) * (2 * L + 1)) := by
+/-- `n_stabilizers = 2(2Lx+1)(2Ly+1)` (the seam rows are listed twice) -/
+theorem length_stabs (Lx Ly : Nat) : (stabs Lx Ly).length = 2 * ((2 * Lx + 1) * (2 * Ly + 1)) := by
   unfold stabs faces
-  rw [Color666PlanarCode.length_both, length_grid, length_range4]
+  rw [Color666PlanarCode.length_both, length_grid, length_range4, length_range4]
 
 /-- the eight qubits of the unit cell `(i, j)` -/
 def cell (i j : Nat) : List Coord :=
@@ -217,8 +217,8 @@ def cell (i j : Nat) : List Coord :=
    [8 * (i : Int) + 3, 8 * (j : Int) + 3], [8 * (i : Int) + 3, 8 * (j : Int) + 5],
    [8 * (i : Int) + 5, 8 * (j : Int) + 3], [8 * (i : Int) + 5, 8 * (j : Int) + 5]]
 
-def niceQubits (L : Nat) : List Coord :=
-  (List.range L).flatMap fun i => (List.range L).flatMap fun j => cell i j
+def niceQubits (Lx Ly : Nat) : List Coord :=
+  (List.range Lx).flatMap fun i => (List.range Ly).flatMap fun j => cell i j
 
 theorem mem_cell {i j : Nat} {q : Coord} : q ∈ cell i j ↔ ∃ a b, q = [a, b] ∧
     8 * (i : Int) ≤ a ∧ a < 8 * (i : Int) + 8 ∧ 8 * (j : Int) ≤ b ∧ b < 8 * (j : Int) + 8 ∧
@@ -246,10 +246,10 @@ theorem nodup_cell (i j : Nat) : (cell i j).Nodup := by
     or_false, not_false_eq_true, List.nodup_nil]
   omega
 
-theorem mem_niceQubits {L : Nat} (hL : 1 ≤ L) {q : Coord} : q ∈ niceQubits L ↔ q ∈ qubits L L := by
+theorem mem_niceQubits {Lx Ly : Nat} (hx : 1 ≤ Lx) (hy : 1 ≤ Ly) {q : Coord} : q ∈ niceQubits Lx Ly ↔ q ∈ qubits Lx Ly := by
   unfold niceQubits
   simp only [List.mem_flatMap, List.mem_range]
-  rw [mem_qubits hL]
+  rw [mem_qubits hx hy]
   constructor
   · rintro ⟨i, hi, j, hj, hq⟩
     obtain ⟨a, b, rfl, h⟩ := mem_cell.mp hq
@@ -259,7 +259,7 @@ theorem mem_niceQubits {L : Nat} (hL : 1 ≤ L) {q : Coord} : q ∈ niceQubits L
     exact ⟨(a / 8).toNat, by omega, (b / 8).toNat, by omega,
       mem_cell.mpr ⟨a, b, rfl, by omega⟩⟩
 
-theorem nodup_niceQubits (L : Nat) : (niceQubits L).Nodup := by
+theorem nodup_niceQubits (Lx Ly : Nat) : (niceQubits Lx Ly).Nodup := by
   unfold niceQubits
   apply Color666PlanarCode.nodup_blocks
   · intro i
@@ -279,12 +279,12 @@ theorem nodup_niceQubits (L : Nat) : (niceQubits L).Nodup := by
     simp only [List.cons.injEq, and_true] at e
     omega
 
-/-- `n = 8L²` -/
-theorem length_qubits {L : Nat} (hL : 1 ≤ L) : (qubits L L).length = 8 * (L * L) := by
-  rw [← length_eq_of_mem_iff (nodup_niceQubits L) (nodup_qubits L) (fun q => mem_niceQubits hL)]
+/-- `n = 8·Lx·Ly` -/
+theorem length_qubits {Lx Ly : Nat} (hx : 1 ≤ Lx) (hy : 1 ≤ Ly) : (qubits Lx Ly).length = 8 * (Lx * Ly) := by
+  rw [← length_eq_of_mem_iff (nodup_niceQubits Lx Ly) (nodup_qubits Lx Ly) (fun q => mem_niceQubits hx hy)]
   unfold niceQubits
-  rw [length_flatMap_range _ (fun _ => 8 * L) (fun i => by
+  rw [length_flatMap_range _ (fun _ => 8 * Ly) (fun i => by
     rw [length_flatMap_range _ (fun _ => 8) (fun j => rfl), Color666PlanarCode.sum_const]),
-    Color666PlanarCode.sum_const, Nat.mul_assoc]
+    Color666PlanarCode.sum_const, Nat.mul_assoc, Nat.mul_comm Ly Lx]
 
 end Panqec.Color488Code
